@@ -273,22 +273,45 @@ func cmdC01Diff(seed uint64, n int, dir string) {
 	r := newRng(seed)
 	st := newStats()
 	kinds := map[string]int{}
+	// generate first (one PRNG stream), build the reference programs in parallel, then compare in order
+	type job struct {
+		src   string
+		files map[string]string
+	}
+	jobs := make([]job, n)
+	var pre []string
 	for c := 0; c < n; c++ {
 		switch c % 4 {
 		case 0:
-			src := genCoreProgram(r, 5)
+			jobs[c].src = genCoreProgram(r, 5)
+		case 1:
+			jobs[c].src = genScopeProgram(r, 5, 2+c%4, kinds)
+		case 2:
+			jobs[c].src = genFaultProgram(r)
+		default:
+			jobs[c].files = genMultiPackage(r)
+		}
+		if jobs[c].src != "" {
+			pre = append(pre, asInt32(jobs[c].src))
+		}
+	}
+	goRefPrefetch(pre)
+	for c := 0; c < n; c++ {
+		switch c % 4 {
+		case 0:
+			src := jobs[c].src
 			st.add("core program", fmt.Sprintf("core %d (%d lines)", c, strings.Count(src, "\n")))
 			diffProgram(st, "core-program", src)
 		case 1:
-			src := genScopeProgram(r, 5, 2+c%4, kinds)
+			src := jobs[c].src
 			st.add("scope program", fmt.Sprintf("scope %d (%d lines)", c, strings.Count(src, "\n")))
 			diffProgram(st, "scope-program", src)
 		case 2:
-			src := genFaultProgram(r)
+			src := jobs[c].src
 			st.add("fault program", fmt.Sprintf("fault %d (%d lines)", c, strings.Count(src, "\n")))
 			diffProgram(st, "fault-program", src)
 		default:
-			files := genMultiPackage(r)
+			files := jobs[c].files
 			st.add("multi-package program", fmt.Sprintf("multi-package %d (%d files)", c, len(files)))
 			exp, panicked, err := goRefRunTree(files)
 			if err != nil {
